@@ -413,7 +413,7 @@ func dnWorkload() {
 
 func main() {
 	r = mon.Start("C16", "exploration")
-	r.Rule("SIDs: every sub-authority count 0..15 x 20 authorities (0,1,5,…,2^32-1,2^32,2^48-1) x boundary sub-authority values (uniform, rotating, one extreme per position), 20 well-known SIDs, seeded SIDs; each also followed by trailing bytes; every truncation of a sample of them. DNs: 0..8 RDNs of types CN/OU/DC/O/L, non-DC values drawn from every character AD escapes (, + \" \\ < > ; = leading #/space, control characters) and fragments such as ',DC=evil', DC values DNS labels, written in AD's escaped string form (commas as \\, or \\2C, '=' as \\= or \\3D). Non-trivial = each distinct SID text, each (count, truncation length), each distinct DN with >= 2 RDNs.")
+	r.Rule("SIDs: every sub-authority count 0..15 x 20 authorities (0,1,5,…,2^32-1,2^32,2^48-1) x boundary sub-authority values (uniform, rotating, one extreme per position), 20 well-known SIDs, seeded SIDs; each also followed by trailing bytes; every truncation of a sample of them. DNs: 0..8 RDNs of types CN/OU/DC/O/L, non-DC values drawn from every character AD escapes (, + \" \\ < > ; = leading #/space, control characters) and fragments such as ',DC=evil', DC values DNS labels, written in AD's escaped string form (commas as \\, or \\2C, '=' as \\= or \\3D). Non-trivial = each distinct SID text, each (count, truncation length), each distinct DN with >= 2 RDNs. State monitors (state.go): every SID/DN decoded right after neighbours sharing part of its bytes (other authority, other RID, one sub-authority or DC more/fewer) through a caller buffer that is overwritten and reused, results held and re-compared, 8 concurrent callers; each base SID / DN sequence counts once.")
 	r.Assume(
 		"the identifier authority is printed in decimal for all 48-bit values, as the property states (MS-DTYP would print values >= 2^32 in hexadecimal)",
 		"bytes after the declared SID length are not part of the SID: the canonical text or a refusal (\"\") are both accepted, a different text is not",
@@ -425,5 +425,6 @@ func main() {
 	r.Extra("exhaustive_subdomains", []string{"sub-authority counts 0..15", "every truncation length of the sampled SIDs"})
 	sidWorkload()
 	dnWorkload()
+	stateWorkload() // state.go: neighbour sequences, reused caller buffer, held results, concurrent callers
 	r.Finish()
 }
